@@ -17,6 +17,16 @@ func c01Variants(tier string) []variant {
 }
 
 func init() {
+	reg(&propCfg{ID: "C02", Pkg: "./props/c02", Variants: func(tier string) []variant {
+		vs := []variant{{Name: "tracked", Shim: "tracked", Shards: 16, Env: []string{"GOMAXPROCS=4"}}}
+		if tier == "thorough" {
+			vs = append(vs, variant{Name: "tracked-p2", Shim: "tracked", Shards: 16, Env: []string{"GOMAXPROCS=2"}})
+		}
+		return vs
+	},
+		Level:       "held on every recorded history: every program of 2 threads x <=2 calls and 3 threads x 1 call over each of the 8 types' single-element operations with a 2-value (thorough 3-value) alphabet and 3 small initial states, each executed 16 (thorough 256, also with GOMAXPROCS=2) times under seeded delays at lock boundaries, plus seeded larger programs; every history (with a sequential observation suffix) checked by porcupine against the implementation replayed sequentially",
+		Technique:   "client-boundary history recorder + porcupine linearizability checker with the sequentially replayed implementation as specification, executions under the tracked sync shim (seeded delays between critical sections)",
+		Assumptions: []string{"interleavings are those the runtime + seeded delays produce (measured: distinct lock-acquisition orders are reported); not exhaustive, a split section that no run opens is missed", "relies on C01 for races inside one lock acquisition (no delay is injected there)", "the sequential behaviour itself is judged by C03-C09, not here", "porcupine v1.3.0 is trusted"}})
 	reg(&propCfg{ID: "C01", Pkg: "./props/c01", Variants: c01Variants,
 		Level:       "held on every executed scenario: every unordered pair (incl. self-pairs) of public methods of each of the 8 lock-guarded types (cache with and without the cleanup goroutine) x initial states {0,1,3 elements} x randomised start order x 20 (thorough 200) repetitions under the race detector with yields injected at every lock boundary, the same scenarios x 40 (300) under the tracked shim (deadlock verdict, leaked lock, usability afterwards, panic filter), long random mixes; thorough adds triples and GOMAXPROCS in {16,4,2,1}",
 		Technique:   "Go race detector over a pairwise method-scenario table with injected delays at lock boundaries (sync shim) + tracked-lock shim deciding deadlock/leaked-lock/usability",
